@@ -1,9 +1,10 @@
 \* the two proposed repairs switched on: the strict forms hold as well
 CONSTANTS
+  FixedChannelSelect = TRUE
   FixedWindowRaw = TRUE
   FixedWatchdogRestart = TRUE
   ValMode = 1
   NBases = 4
 SPECIFICATION Spec
-INVARIANTS TypeOK ReadBack NonAliasing HiddenFrame ReadPurity PathsAgree ChannelIndependent ChannelIndependentStrict NoAbort
+INVARIANTS TypeOK ReadBack NonAliasing HiddenFrame ReadPurity PathsAgree ChannelIndependent WindowReachable ChannelIndependentStrict NoAbort
 CHECK_DEADLOCK FALSE
